@@ -1,17 +1,411 @@
+// C37 correspondence harness: drives the real GetLengthLimitedID and the chain / IP set name wrappers.
 package main
 
 import (
+	"crypto/sha256"
+	"encoding/base64"
+	"encoding/hex"
 	"fmt"
+	"strconv"
 	"strings"
 
+	v3 "github.com/projectcalico/api/pkg/apis/projectcalico/v3"
+
+	"github.com/projectcalico/calico/felix/ipsets"
+	"github.com/projectcalico/calico/felix/iptables"
+	"github.com/projectcalico/calico/felix/nftables"
 	"github.com/projectcalico/calico/felix/rules"
 	"github.com/projectcalico/calico/felix/types"
+	"github.com/projectcalico/calico/libcalico-go/lib/backend/model"
+	calihash "github.com/projectcalico/calico/libcalico-go/lib/hash"
+
+	"verif/harness/rt"
 )
 
+func xs(b string) string { return "x" + hex.EncodeToString([]byte(b)) }
+func unx(t string) string {
+	b, err := hex.DecodeString(strings.TrimPrefix(t, "x"))
+	if err != nil {
+		panic(err)
+	}
+	return string(b)
+}
+
+// h64 is what the model's uninterpreted `hash` stands for.
+func h64(s string) string {
+	sum := sha256.Sum256([]byte(s))
+	return base64.RawURLEncoding.EncodeToString(sum[:])
+}
+
+// state of one case: names handed out so far, per namespace, for the distinctness oracle.
+type state struct {
+	seen map[string]map[string]string // namespace -> name -> identity
+}
+
+// call runs f, mapping a Go panic to ("", kind).
+func call(f func() string) (out string, panicked string) {
+	defer func() {
+		if r := recover(); r != nil {
+			msg := fmt.Sprint(r)
+			if e, ok := r.(interface{ Error() string }); ok {
+				msg = e.Error()
+			}
+			if strings.Contains(msg, "slice bounds out of range") {
+				panicked = "hash-slice"
+			} else {
+				panicked = "too-small"
+			}
+		}
+	}()
+	return f(), ""
+}
+
+// check evaluates the property's own oracle on the real code for one name.
+// ns: namespace in which names must be distinct; ident: identity (distinct identities must get distinct names);
+// max: length limit (<=0: none); exempt: identity excluded from the distinctness claim (empty suffix guard).
+func (s *state) check(h *rt.H, op string, ns, ident string, max int, f func() string, exempt bool) string {
+	name, p := call(f)
+	if p == "hash-slice" {
+		h.OracleFail("panic-hash-slice", "GetLengthLimitedID panics (hash[0:n] out of range) instead of returning a name: limit-1-len(prefix) > 43 and the identity needs shortening", map[string]any{"op": op})
+		return "panic"
+	}
+	if p != "" {
+		return "panic" // documented precondition: maxLength too small for the prefix
+	}
+	if name2, _ := call(f); name2 != name {
+		h.OracleFail("nondeterministic", "same identity got two different names", map[string]any{"op": op, "a": name, "b": name2})
+	}
+	if max > 0 && len(name) > max {
+		h.OracleFail("too-long", "name exceeds the length limit", map[string]any{"op": op, "name": name, "max": max})
+	}
+	if !exempt {
+		m := s.seen[ns]
+		if m == nil {
+			m = map[string]string{}
+			s.seen[ns] = m
+		}
+		if prev, ok := m[name]; ok && prev != ident {
+			h.OracleFail("collision", "two distinct identities got the same name", map[string]any{"op": op, "name": name, "identity_a": prev, "identity_b": ident, "namespace": ns})
+		}
+		m[name] = ident
+	}
+	return xs(name)
+}
+
+var kinds = []string{v3.KindNetworkPolicy, v3.KindGlobalNetworkPolicy, v3.KindStagedNetworkPolicy, v3.KindStagedGlobalNetworkPolicy,
+	v3.KindStagedKubernetesNetworkPolicy, model.KindKubernetesNetworkPolicy, "SomeOtherKind"}
+
+var epPfx = map[string]string{"tw": rules.WorkloadToEndpointPfx, "fw": rules.WorkloadFromEndpointPfx, "sm": rules.SetEndPointMarkPfx,
+	"th": rules.HostToEndpointPfx, "fh": rules.HostFromEndpointPfx, "thfw": rules.HostToEndpointForwardPfx,
+	"fhfw": rules.HostFromEndpointForwardPfx, "arp": rules.WorkloadARPPfx}
+
+func polID(w []string) *types.PolicyID {
+	k, _ := strconv.Atoi(w[4])
+	return &types.PolicyID{Kind: kinds[k], Namespace: unx(w[5]), Name: unx(w[6])}
+}
+
+func group(w []string) *rules.PolicyGroup {
+	k, _ := strconv.Atoi(w[3])
+	g := &rules.PolicyGroup{Selector: fmt.Sprintf("has(l%d)", k/3), Direction: rules.PolicyDirectionInbound}
+	if w[1] == "out" {
+		g.Direction = rules.PolicyDirectionOutbound
+	}
+	for i := 0; i <= k%3; i++ {
+		g.Policies = append(g.Policies, &types.PolicyID{Kind: v3.KindNetworkPolicy, Namespace: "ns", Name: fmt.Sprintf("p%d-%d", k, i)})
+	}
+	return g
+}
+
+// exec runs one protocol op on the REAL code and returns the canonical output.
+func exec(h *rt.H, s *state, op string) string {
+	w := strings.Fields(op)
+	switch w[0] {
+	case "new":
+		s.seen = map[string]map[string]string{}
+		return "ok"
+	case "h":
+		return "ok"
+	case "gll":
+		p, suf := unx(w[1]), unx(w[2])
+		m, _ := strconv.Atoi(w[3])
+		// identities: (prefix, max) is the namespace, the suffix the identity; the empty suffix is the excluded point.
+		// Hashed names are only claimed distinct under the cryptographic hypothesis on the TRUNCATED hash: with
+		// fewer than 16 hash characters left (< 96 bits) a collision is expected, not a defect.
+		needsHash := len(p)+len(suf) > m || (len(p)+len(suf) == m && strings.HasPrefix(suf, "_"))
+		if needsHash && m-1-len(p) < 16 {
+			return s.check(h, op, fmt.Sprintf("gll/%s/%d", w[1], m), w[2], m, func() string { return calihash.GetLengthLimitedID(p, suf, m) }, true)
+		}
+		return s.check(h, op, fmt.Sprintf("gll/%s/%d", w[1], m), w[2], m, func() string { return calihash.GetLengthLimitedID(p, suf, m) }, suf == "")
+	case "pol":
+		id := polID(w)
+		nft := w[3] == "1"
+		pfx, max := rules.PolicyInboundPfx, iptables.MaxChainNameLength
+		if w[1] == "out" {
+			pfx = rules.PolicyOutboundPfx
+		}
+		if nft {
+			max = nftables.MaxChainNameLength
+		}
+		return s.check(h, op, "chains/"+w[3], "pol/"+w[1]+"/"+w[2], max, func() string { return rules.PolicyChainName(pfx, id, nft) }, false)
+	case "prof":
+		nft := w[3] == "1"
+		pfx, max := rules.ProfileInboundPfx, iptables.MaxChainNameLength
+		if w[1] == "out" {
+			pfx = rules.ProfileOutboundPfx
+		}
+		if nft {
+			max = nftables.MaxChainNameLength
+		}
+		name := unx(w[2])
+		return s.check(h, op, "chains/"+w[3], "prof/"+w[1]+"/"+w[2], max, func() string { return rules.ProfileChainName(pfx, &types.ProfileID{Name: name}, nft) }, name == "")
+	case "ep":
+		iface := unx(w[2])
+		m, _ := strconv.Atoi(w[3])
+		ns := "chains/x" + w[3]
+		if m == iptables.MaxChainNameLength {
+			ns = "chains/0"
+		} else if m == nftables.MaxChainNameLength {
+			ns = "chains/1"
+		}
+		return s.check(h, op, ns, "ep/"+w[1]+"/"+w[2], m, func() string { return rules.EndpointChainName(epPfx[w[1]], iface, m) }, iface == "")
+	case "grp":
+		g := group(w)
+		// group chains live with the other chains in both modes
+		out := s.check(h, op, "chains/0", "grp/"+w[1]+"/"+w[3], iptables.MaxChainNameLength, func() string { return g.ChainName() }, false)
+		s.check(h, op, "chains/1", "grp/"+w[1]+"/"+w[3], nftables.MaxChainNameLength, func() string { return g.ChainName() }, false)
+		return out
+	case "ipset":
+		fam := ipsets.IPFamilyV4
+		if w[1] == "6" {
+			fam = ipsets.IPFamilyV6
+		}
+		np, id := unx(w[2]), unx(w[3])
+		c := ipsets.NewIPVersionConfig(fam, np, nil, nil)
+		// "IP-set names: injective iff ids differ within the first 31-|prefix| bytes": the identity is that prefix of the id
+		keep := ipsets.MaxIPSetNameLength - len(np) - 2
+		ident := id
+		if keep < 0 {
+			keep = 0
+		}
+		if len(ident) > keep {
+			ident = ident[:keep]
+		}
+		return s.check(h, op, "ipsets/"+w[1]+"/"+w[2], xs(ident), ipsets.MaxIPSetNameLength, func() string { return c.NameForMainIPSet(id) }, false)
+	}
+	panic("unknown op " + op)
+}
+
+// ---- generator ----------------------------------------------------------------
+
+const alnum = "abcdefghijklmnopqrstuvwxyz0123456789-."
+
+func randStr(h *rt.H, n int) string {
+	b := make([]byte, n)
+	for i := range b {
+		b[i] = alnum[h.Intn(len(alnum))]
+	}
+	return string(b)
+}
+
+// suffixAround produces suffixes whose length sits around the point where prefix+suffix hits max.
+func suffixAround(h *rt.H, plen, max int) string {
+	room := max - plen
+	if room < 0 {
+		room = 0
+	}
+	var n int
+	switch h.Intn(8) {
+	case 0:
+		n = room
+	case 1:
+		n = room - 1
+	case 2:
+		n = room + 1
+	case 3:
+		n = room + 2 + h.Intn(40)
+	case 4:
+		n = h.Intn(4)
+	case 5:
+		n = room + 200 + h.Intn(100)
+	default:
+		n = h.Intn(room + 3)
+	}
+	if n < 0 {
+		n = 0
+	}
+	s := randStr(h, n)
+	if n > 0 && h.Intn(3) == 0 {
+		s = "_" + s[1:]
+	}
+	return s
+}
+
+func genCase(h *rt.H) []string {
+	ops := []string{"new"}
+	var hashed []string // suffixes whose hash the model may need
+	add := func(op string, suf string) {
+		eff := suf
+		if eff == "" {
+			eff = "_"
+		}
+		hashed = append(hashed, eff)
+		ops = append(ops, op)
+	}
+	ipt, nft := iptables.MaxChainNameLength, nftables.MaxChainNameLength
+	maxOf := func(n string) int {
+		if n == "1" {
+			return nft
+		}
+		return ipt
+	}
+	n := 4 + h.Intn(14)
+	var lastSuffix string
+	for i := 0; i < n; i++ {
+		switch h.Intn(10) {
+		case 0, 1, 2: // raw GetLengthLimitedID, one (prefix,max) with several suffixes incl. adversarial ones
+			p := rt.Pick(h, []string{"", "cali-pi-", "cali-tw-", "p", "cali-thfw-", "_", "felix-"})
+			m := rt.Pick(h, []int{28, 28, 31, 15, 16, len(p) + 1, len(p) + 2, len(p) + 44, len(p) + 45, 60, 128, 256, 0, -1})
+			base := suffixAround(h, len(p), m)
+			sufs := []string{base, base + "x", "_" + base, "", "_"}
+			if len(base) > 2 {
+				sufs = append(sufs, base[:len(base)-1]+"#", base[1:])
+			}
+			// adversarial: the suffix that EQUALS the shortened form of `base`
+			if c := m - 1 - len(p); c > 0 && c <= 43 {
+				sufs = append(sufs, "_"+h64(base)[:c])
+				if len(base) > 0 {
+					sufs = append(sufs, h64(base)[:c], "_"+h64(base)[:c-1])
+				}
+			}
+			for _, sf := range sufs {
+				if h.Intn(3) != 0 {
+					add(fmt.Sprintf("gll %s %s %d", xs(p), xs(sf), m), sf)
+				}
+			}
+			lastSuffix = base
+		case 3, 4: // policies
+			nf := rt.Pick(h, []string{"0", "0", "1"})
+			dir := rt.Pick(h, []string{"in", "out"})
+			k := h.Intn(len(kinds))
+			ns := rt.Pick(h, []string{"", "default", "kube-system", randStr(h, 1+h.Intn(63))})
+			nameLen := rt.Pick(h, []int{1, 5, 12, 16, 17, 18, 19, 20, 40, 100, 200, 235, 240, 245, 253})
+			if nf == "1" && h.Intn(2) == 0 {
+				nameLen = maxOf(nf) - 8 - 4 - len(ns) - 2 + h.Intn(5)
+				if nameLen < 1 {
+					nameLen = 1
+				}
+			}
+			name := randStr(h, nameLen)
+			id := (&types.PolicyID{Kind: kinds[k], Namespace: ns, Name: name}).ID()
+			add(fmt.Sprintf("pol %s %s %s %d %s %s", dir, xs(id), nf, k, xs(ns), xs(name)), id)
+			if h.Intn(2) == 0 { // same policy, other direction / a sibling differing in the last character
+				name2 := name[:len(name)-1] + "~"
+				id2 := (&types.PolicyID{Kind: kinds[k], Namespace: ns, Name: name2}).ID()
+				add(fmt.Sprintf("pol %s %s %s %d %s %s", dir, xs(id2), nf, k, xs(ns), xs(name2)), id2)
+			}
+		case 5: // profiles
+			nf := rt.Pick(h, []string{"0", "0", "1"})
+			dir := rt.Pick(h, []string{"in", "out"})
+			name := rt.Pick(h, []string{"kns.default", "ksa.default.default", "_", "_prof", randStr(h, 17), randStr(h, 18), randStr(h, 19), randStr(h, 20), "_" + randStr(h, 18), "_" + randStr(h, 17), randStr(h, 60), randStr(h, 250)})
+			add(fmt.Sprintf("prof %s %s %s", dir, xs(name), nf), name)
+		case 6, 7: // endpoints
+			kind := rt.Pick(h, []string{"tw", "fw", "sm", "th", "fh", "thfw", "fhfw", "arp"})
+			m := rt.Pick(h, []int{ipt, ipt, nft})
+			iface := rt.Pick(h, []string{"cali" + randStr(h, 11), "eth0", "tap" + randStr(h, 11), "_", "_" + randStr(h, 14), randStr(h, 15), randStr(h, m-len(epPfx[kind])), "_" + randStr(h, m-len(epPfx[kind])-1), randStr(h, 16+h.Intn(8)), "dispatch", lastSuffix})
+			if len(iface) > 300 {
+				iface = iface[:300]
+			}
+			add(fmt.Sprintf("ep %s %s %d", kind, xs(iface), m), iface)
+		case 8: // policy groups
+			dir := rt.Pick(h, []string{"in", "out"})
+			k := h.Intn(40)
+			g := group([]string{"grp", dir, "", strconv.Itoa(k)})
+			ops = append(ops, fmt.Sprintf("grp %s %s %d", dir, xs(g.UniqueID()), k))
+		default: // IP sets
+			fam := rt.Pick(h, []string{"4", "6"})
+			np := rt.Pick(h, []string{"cali", "cali", "c", "felix-ipsets-long-prefix-", "a-very-long-ip-set-name-prefix-over-31"})
+			id := rt.Pick(h, []string{"s:" + randStr(h, 27), "s:" + randStr(h, 27), randStr(h, 3), randStr(h, 24), randStr(h, 25), randStr(h, 26), ""})
+			ops = append(ops, fmt.Sprintf("ipset %s %s %s", fam, xs(np), xs(id)))
+			if h.Intn(2) == 0 { // ids equal up to the truncation point / differing just before it
+				ops = append(ops, fmt.Sprintf("ipset %s %s %s", fam, xs(np), xs(id+"tail")))
+				if len(id) > 2 {
+					ops = append(ops, fmt.Sprintf("ipset %s %s %s", fam, xs(np), xs(id[:len(id)-1]+"#")))
+				}
+			}
+		}
+	}
+	// hash table lines right after `new`
+	full := []string{ops[0]}
+	done := map[string]bool{}
+	for _, s := range hashed {
+		if !done[s] {
+			done[s] = true
+			full = append(full, fmt.Sprintf("h %s %s", xs(s), xs(h64(s))))
+		}
+	}
+	return append(full, ops[1:]...)
+}
+
 func main() {
-	defer func() { fmt.Println("recovered:", recover()) }()
-	id := &types.PolicyID{Name: strings.Repeat("a", 250), Namespace: "default", Kind: "NetworkPolicy"}
-	fmt.Println(len(id.ID()))
-	fmt.Println(rules.PolicyChainName(rules.PolicyInboundPfx, id, false))
-	fmt.Println(rules.PolicyChainName(rules.PolicyInboundPfx, id, true))
+	h := rt.New()
+	defer h.Close()
+	h.Rule = "case = 4..17 groups of identities: raw GetLengthLimitedID (prefix x max incl. tiny/huge/0/-1, suffix lengths around the limit, leading '_', empty, the suffix that EQUALS another's shortened form), policies (all kinds, ns, names up to 253, ipt+nft), profiles, endpoints (8 prefixes), policy groups, IP sets (ids equal/different around the truncation point); " +
+		"oracle per name: fits limit, same name on a second call, distinct identities of one namespace never share a name, no panic; distinct = distinct op sequence; non-trivial = case contains a shortened (hashed) name"
+	run := func(ops []string, tag string) {
+		h.Case(tag)
+		s := &state{seen: map[string]map[string]string{}}
+		nontriv := false
+		for _, op := range ops {
+			out := exec(h, s, op)
+			h.Op(op, out)
+			k := strings.Fields(op)[0]
+			if k != "h" {
+				h.Count("op:" + k)
+				if out == "panic" {
+					h.Count("out:panic")
+				} else if k != "new" && k != "grp" && k != "ipset" {
+					nm := unx(out)
+					w := strings.Fields(op)
+					if strings.Contains(nm, "_") && len(w) > 2 && !strings.HasSuffix(nm, unx(w[2])) {
+						h.Count("out:shortened")
+						nontriv = true
+					} else {
+						h.Count("out:verbatim")
+					}
+				}
+			}
+		}
+		if nontriv {
+			h.Nontrivial(strings.Join(ops, ";"))
+		}
+		h.Sample()
+	}
+	if h.Replay != "" {
+		lines := h.ReplayLines()
+		// regenerate hash lines for whatever suffixes the replayed ops mention
+		var ops []string
+		seen := map[string]bool{}
+		for _, l := range lines {
+			w := strings.Fields(l)
+			if w[0] == "h" || w[0] == "new" {
+				continue
+			}
+			if len(w) > 2 && (w[0] == "gll" || w[0] == "pol" || w[0] == "prof" || w[0] == "ep") {
+				s := unx(w[2])
+				if s == "" {
+					s = "_"
+				}
+				if !seen[s] {
+					seen[s] = true
+					ops = append(ops, fmt.Sprintf("h %s %s", xs(s), xs(h64(s))))
+				}
+			}
+			ops = append(ops, l)
+		}
+		run(append([]string{"new"}, ops...), "replay")
+		return
+	}
+	for i := 0; i < h.N; i++ {
+		run(genCase(h), "gen")
+	}
 }
